@@ -22,6 +22,7 @@ type c19GenPlan struct {
 	Scripts  [][]ffStep // per output
 	Tails    []ffStep
 	FailSend []int // numbers of the SendChunk calls every consumer of this generation fails (injected)
+	Plant    bool  // before the start, every existing queue directory gets a zero-length chunk file, unreadable entries and a foreign file
 	End      int   // 0 drain (healthy tail, wait idle) then stop; 1 stop as soon as the input is read; 2 stop after the upstream has K chunks
 	EndK     int
 }
@@ -178,6 +179,7 @@ func c19MakePlan(seed uint64, idx int) *c19Plan {
 		}
 		gp.End = r.Intn(3)
 		gp.EndK = r.Range(1, 3)
+		gp.Plant = g > 0 && r.Chance(1, 2)
 		p.Gens = append(p.Gens, gp)
 	}
 	return p
@@ -200,8 +202,26 @@ func c19LightPlan(recs []*c19Rec, okeys, mkeys int) *c19Plan {
 // ---------- what one run of a scenario observed ----------
 
 type c19DiskFile struct {
-	ID   string
-	Size int
+	ID         string
+	Size       int  // what stat() on the entry says (0 when stat fails)
+	Unreadable bool // an entry named like a chunk that cannot be read as a file: a directory or a dangling symlink
+}
+
+// c19Planted: what the harness puts into an existing queue directory before a generation starts, as a crash or an
+// operator could leave it: a zero-length chunk file, entries named like chunks that cannot be read (a directory, a
+// dangling symlink), and a foreign file.  The names sort before every real chunk id, so the feeder meets them first.
+const (
+	c19PlantZero    = "0000000000000000001-00000000.ff"
+	c19PlantDir     = "0000000000000000002-00000000.ff"
+	c19PlantSymlink = "0000000000000000003-00000000.ff"
+	c19PlantForeign = "0000000000000000004-00000000.ff.partial"
+)
+
+func c19Plant(dir string) {
+	_ = os.WriteFile(filepath.Join(dir, c19PlantZero), nil, 0o644)
+	_ = os.Mkdir(filepath.Join(dir, c19PlantDir), 0o755)
+	_ = os.Symlink(filepath.Join(dir, "no-such-file"), filepath.Join(dir, c19PlantSymlink))
+	_ = os.WriteFile(filepath.Join(dir, c19PlantForeign), []byte("not a chunk"), 0o644)
 }
 
 // c19PipeObs: one (generation, pipeline, output).
@@ -252,15 +272,19 @@ func c19ListQueue(root string) map[string][]c19DiskFile {
 		files, _ := os.ReadDir(dir)
 		var list []c19DiskFile
 		for _, f := range files {
-			if f.IsDir() || !strings.HasSuffix(f.Name(), ".ff") {
+			if !strings.HasSuffix(f.Name(), ".ff") {
 				continue
 			}
-			st, serr := f.Info()
-			sz := 0
+			// what the agent sees: fstatat follows symbolic links
+			df := c19DiskFile{ID: f.Name()}
+			st, serr := os.Stat(filepath.Join(dir, f.Name()))
 			if serr == nil {
-				sz = int(st.Size())
+				df.Size = int(st.Size())
+				df.Unreadable = st.IsDir()
+			} else {
+				df.Unreadable = true
 			}
-			list = append(list, c19DiskFile{ID: f.Name(), Size: sz})
+			list = append(list, df)
 		}
 		sort.Slice(list, func(i, j int) bool { return list[i].ID < list[j].ID })
 		res[string(id)] = list
@@ -311,6 +335,17 @@ func c19RunPlan(p *c19Plan) *c19RunObs {
 		gobs := &c19GenObs{Gen: gen}
 		ro.Gens = append(ro.Gens, gobs)
 		before := map[string]map[string][]c19DiskFile{}
+		if gp.Plant {
+			for _, o := range cfg.Outputs {
+				if entries, rerr := os.ReadDir(ag.cfg.queueRoot(o.Name)); rerr == nil {
+					for _, e := range entries {
+						if e.IsDir() {
+							c19Plant(filepath.Join(ag.cfg.queueRoot(o.Name), e.Name()))
+						}
+					}
+				}
+			}
+		}
 		for _, o := range cfg.Outputs {
 			before[o.Name] = c19ListQueue(ag.cfg.queueRoot(o.Name))
 		}
